@@ -44,11 +44,12 @@ func flowPart(run *Run, ss *shardSet) {
 		"(f) real server and client connections against a scripted peer: SETTINGS_INITIAL_WINDOW_SIZE from {0,1,2,100,16383,16384,16385,65535,2^31-1}, " +
 		"SETTINGS_MAX_FRAME_SIZE from {16384,16385,65536,2^24-1}, bodies {0,1,100,16384,16385,70000,200000}, credit released by stream / connection " +
 		"WINDOW_UPDATEs and SETTINGS changes of the initial window (up and down) and of the max frame size in random order; one sender per connection " +
-		"(exact DATA frame trace compared with the model) or 2-3 concurrent senders (safety and liveness checked by the peer, byte totals compared with the model). " +
+		"(exact DATA frame trace compared with the model) or 2-3 concurrent senders (safety and liveness checked by the peer, byte totals compared with the model); " +
+		"(g) a peer that pushes a window beyond 2^31-1 by WINDOW_UPDATE (stream, connection) or by raising the initial window: the window must stay as it was (connection error, or ignored by the client's SETTINGS processing). " +
 		"A connection case is non-trivial when the sender had to wait for credit at least once; distinct by the full script."
-	flowFnPart(run, ss, run.N(300, 4000))
+	flowFnPart(run, ss, run.N(400, 4000))
 	t0 := time.Now()
-	n := run.N(150, 1500)
+	n := run.N(400, 3000)
 	for i := 0; i < n; i++ {
 		sd := "server"
 		if i%2 == 1 {
@@ -56,13 +57,21 @@ func flowPart(run *Run, ss *shardSet) {
 		}
 		flowConnCase(run, ss, sd, i)
 	}
-	nm := run.N(30, 300)
+	nm := run.N(80, 600)
 	for i := 0; i < nm; i++ {
 		sd := "server"
 		if i%2 == 1 {
 			sd = "client"
 		}
 		flowMultiCase(run, ss, sd, i)
+	}
+	no := run.N(48, 480)
+	for i := 0; i < no; i++ {
+		sd := "server"
+		if i%2 == 1 {
+			sd = "client"
+		}
+		flowOverflowCase(run, ss, sd, i/2)
 	}
 	run.Sum.Extra["flow_conn_seconds"] = time.Since(t0).Seconds()
 }
@@ -262,9 +271,10 @@ type flowRig struct {
 	total   int64 // DATA bytes received on the connection
 	streams map[uint32]*flowStream
 	order   []uint32
-	script  []string // replay
+	script  []string   // replay
 	frames  [][2]int64 // DATA frames (sid, len) since the last takeFrames
 	failed  bool
+	strict  bool // several senders: keep the CREDITS (not only the windows) within 2^31-1, so that no scheduling of the senders makes a frame of the peer illegal
 }
 
 func newFlowRig(run *Run, side string) *flowRig {
@@ -400,7 +410,11 @@ func (r *flowRig) entitled() int64 {
 func (r *flowRig) settle(kind string) {
 	r.poll()
 	want := r.total + r.entitled()
-	deadline := time.Now().Add(3 * time.Second)
+	wait := 3 * time.Second
+	if flowLivenessFailures >= 3 {
+		wait = 500 * time.Millisecond // the finding is recorded; do not spend minutes on its repetitions
+	}
+	deadline := time.Now().Add(wait)
 	for r.total < want && time.Now().Before(deadline) && !r.failed {
 		runtime.Gosched()
 		time.Sleep(50 * time.Microsecond)
@@ -410,8 +424,9 @@ func (r *flowRig) settle(kind string) {
 		return
 	}
 	if r.total < want {
+		flowLivenessFailures++
 		r.fail("flow:body-not-delivered-after-credit:"+r.side+":"+kind,
-			fmt.Sprintf("after %s MOSN is entitled to %d more DATA bytes; only %d arrived within 3 s", kind, want-r.total, r.total))
+			fmt.Sprintf("after %s MOSN is entitled to %d more DATA bytes; they did not arrive within %v (%d bytes received so far)", kind, want-r.total, wait, r.total))
 		return
 	}
 	// the take precedes the write: once the entitled bytes are here the windows must be exactly credit - sent
@@ -478,6 +493,8 @@ func (r *flowRig) open(sid uint32, body []byte) bool {
 	go func() { st.done <- cs.RoundTrip(r.ctx) }()
 	return true
 }
+
+var flowLivenessFailures int
 
 type flowEv struct {
 	kind string // "wu", "wuconn", "init", "mfs"
@@ -563,28 +580,28 @@ func (r *flowRig) nextCredit(progress bool) flowEv {
 				}
 				sw := r.init + st.incs - st.recv
 				cwin := r.connCr - r.total
-				grant := func(have int64) int64 {
+				grant := func(have, limit int64) int64 {
 					inc := rem - have
 					if inc > i32Max {
 						inc = i32Max
 					}
-					if have+inc > i32Max {
-						inc = i32Max - have
+					if limit+inc > i32Max {
+						inc = i32Max - limit
 					}
 					return inc
 				}
 				if sw < rem && (cwin >= rem || R.Bool()) {
-					if inc := grant(sw); inc > 0 {
+					if inc := grant(sw, r.init+st.incs-r.usedS(st)); inc > 0 {
 						return flowEv{kind: "wu", sid: sid, v: inc}
 					}
 				}
 				if cwin < rem {
-					if inc := grant(cwin); inc > 0 {
+					if inc := grant(cwin, r.connCr-r.usedC()); inc > 0 {
 						return flowEv{kind: "wuconn", v: inc}
 					}
 				}
 				if sw < rem {
-					if inc := grant(sw); inc > 0 {
+					if inc := grant(sw, r.init+st.incs-r.usedS(st)); inc > 0 {
 						return flowEv{kind: "wu", sid: sid, v: inc}
 					}
 				}
@@ -599,16 +616,16 @@ func (r *flowRig) nextCredit(progress bool) flowEv {
 			if R.Pct(20) {
 				inc = 1 + int64(R.Intn(300000))
 			}
-			if r.init+st.incs-st.recv+inc > i32Max {
+			if r.init+st.incs-r.usedS(st)+inc > i32Max {
 				continue
 			}
 			return flowEv{kind: "wu", sid: sid, v: inc}
 		case k < 5:
 			inc := flowIncs[R.Intn(len(flowIncs))]
 			if R.Pct(10) {
-				inc = i32Max - (r.connCr - r.total)
+				inc = i32Max - (r.connCr - r.usedC())
 			}
-			if inc <= 0 || r.connCr-r.total+inc > i32Max {
+			if inc <= 0 || r.connCr-r.usedC()+inc > i32Max {
 				continue
 			}
 			return flowEv{kind: "wuconn", v: inc}
@@ -620,7 +637,7 @@ func (r *flowRig) nextCredit(progress bool) flowEv {
 			ok := v != r.init
 			for _, sid := range r.order {
 				st := r.streams[sid]
-				if v+st.incs-st.recv > i32Max {
+				if v+st.incs-r.usedS(st) > i32Max {
 					ok = false
 				}
 			}
@@ -636,6 +653,20 @@ func (r *flowRig) nextCredit(progress bool) flowEv {
 			return flowEv{kind: "mfs", v: v}
 		}
 	}
+}
+
+// used: what counts against the 2^31-1 limit when the peer sizes a grant
+func (r *flowRig) usedS(st *flowStream) int64 {
+	if r.strict {
+		return 0
+	}
+	return st.recv
+}
+func (r *flowRig) usedC() int64 {
+	if r.strict {
+		return 0
+	}
+	return r.total
 }
 
 func (r *flowRig) allDone() bool {
@@ -666,14 +697,35 @@ func (r *flowRig) finish() {
 	r.poll()
 }
 
-// abandon unblocks sender goroutines of a failed case so that they do not linger.
+// abandon lets the sender goroutines of a finished or failed case run to their end (no checks any more): both
+// windows are topped up to 2^31-1, sized from MOSN's own counters so that nothing overflows.
 func (r *flowRig) abandon() {
-	if r.allDone() {
-		return
+	for _, sid := range r.order {
+		st := r.streams[sid]
+		if st.win == nil || st.recv >= int64(len(st.body)) {
+			continue
+		}
+		_, cw := st.win()
+		if need := i32Max - int64(cw); need >= 1 {
+			r.wr.WriteWindowUpdate(0, uint32(need))
+			r.feed()
+		}
+		sw, _ := st.win()
+		if need := i32Max - int64(sw); need >= 1 {
+			r.wr.WriteWindowUpdate(sid, uint32(need))
+			r.feed()
+		}
 	}
-	r.wr.WriteSettings(xh2.Setting{ID: xh2.SettingInitialWindowSize, Val: 1 << 30})
-	r.wr.WriteWindowUpdate(0, uint32(i32Max-(r.connCr-r.total)))
-	r.feed()
+	for _, sid := range r.order {
+		st := r.streams[sid]
+		if st.win == nil {
+			continue
+		}
+		select {
+		case <-st.done:
+		case <-time.After(time.Second):
+		}
+	}
 }
 
 func coqSide(side string) string {
@@ -773,6 +825,7 @@ func flowConnCase(run *Run, ss *shardSet, side string, idx int) {
 func flowMultiCase(run *Run, ss *shardSet, side string, idx int) {
 	R := run.R
 	r := newFlowRig(run, side)
+	r.strict = true
 	var groups []string
 	addGroup := func(evs []string) {
 		fr := r.takeFrames()
@@ -835,4 +888,103 @@ func flowMultiCase(run *Run, ss *shardSet, side string, idx int) {
 	term := fmt.Sprintf("(%s, %s)", coqSide(side), CoqList(groups))
 	ss.add("flowt", flowHeader, "flow_tcase", "flow_tmismatches", 40, term, map[string]interface{}{"side": side, "script": r.script})
 	run.Count("flowt:"+term, true, "flow:multi:"+side)
+}
+
+// flowOverflowCase: an ill-behaved peer pushes a send window beyond 2^31-1.  flow.add must refuse (the window keeps
+// its value): WINDOW_UPDATE -> connection error FLOW_CONTROL_ERROR on both sides; SETTINGS_INITIAL_WINDOW_SIZE ->
+// connection error on the server, silently ignored for that stream on the client.  Compared with the model too.
+func flowOverflowCase(run *Run, ss *shardSet, side string, idx int) {
+	R := run.R
+	r := newFlowRig(run, side)
+	var groups []string
+	sid := uint32(1)
+	group := func(evs []string) {
+		fr := r.takeFrames()
+		sw, cw := r.streams[sid].win()
+		evs = append(evs, sendEvents(sid, len(fr))...)
+		groups = append(groups, fmt.Sprintf("(%s, %s, (Some (%s, %s, %s)))", CoqList(evs), coqFrames(fr), CoqZ(int64(sid)), CoqZ(int64(sw)), CoqZ(int64(cw))))
+	}
+	init0 := flowInits[R.Intn(len(flowInits)-1)]
+	pre := []string{}
+	e0 := flowEv{kind: "init", v: init0}
+	if err := r.apply(e0); err != nil {
+		r.fail("flow:settings-rejected:"+side, fmt.Sprintf("init %d: %v", init0, err))
+		return
+	}
+	pre = append(pre, e0.coq())
+	body := R.Bytes(300000)
+	if !r.open(sid, body) {
+		return
+	}
+	pre = append(pre, fmt.Sprintf("EOpen %s %s", CoqZ(int64(sid)), CoqZ(int64(len(body)))))
+	r.settle("open")
+	group(pre)
+	st := r.streams[sid]
+	kind := idx % 3
+	// bring the window under attack close to the top first (legal), then push it over
+	var legal, attack flowEv
+	switch kind {
+	case 0: // stream WINDOW_UPDATE
+		sw := r.init + st.incs - st.recv
+		legal = flowEv{kind: "wu", sid: sid, v: i32Max - sw - int64(R.Intn(3))}
+	case 1: // connection WINDOW_UPDATE
+		legal = flowEv{kind: "wuconn", v: i32Max - (r.connCr - r.total) - int64(R.Intn(3))}
+	default: // SETTINGS_INITIAL_WINDOW_SIZE
+		sw := r.init + st.incs - st.recv
+		legal = flowEv{kind: "wu", sid: sid, v: i32Max - sw - int64(R.Intn(50))}
+	}
+	if legal.v >= 1 {
+		if err := r.apply(legal); err != nil {
+			r.fail("flow:credit-rejected:"+side+":"+legal.kind, fmt.Sprintf("%s v=%d within the legal window range was answered with %v", legal.kind, legal.v, err))
+			r.abandon()
+			return
+		}
+		r.settle(legal.kind)
+		group([]string{legal.coq()})
+	}
+	if r.failed {
+		r.abandon()
+		return
+	}
+	sw0, cw0 := st.win()
+	switch kind {
+	case 0:
+		attack = flowEv{kind: "wu", sid: sid, v: i32Max - int64(sw0) + 1 + int64(R.Intn(1000))}
+	case 1:
+		attack = flowEv{kind: "wuconn", v: i32Max - int64(cw0) + 1 + int64(R.Intn(1000))}
+	default:
+		attack = flowEv{kind: "init", v: r.init + (i32Max - int64(sw0)) + 1 + int64(R.Intn(50))}
+	}
+	if attack.v > i32Max {
+		attack.v = i32Max
+	}
+	overflows := (kind == 0 && int64(sw0)+attack.v > i32Max) || (kind == 1 && int64(cw0)+attack.v > i32Max) || (kind == 2 && int64(sw0)+attack.v-r.init > i32Max)
+	if !overflows || attack.v < 1 {
+		return // the window could not be brought close enough to the top (initial window 2^31-1 taken etc.)
+	}
+	bookInit, bookIncs, bookConn := r.init, st.incs, r.connCr
+	err := r.apply(attack)
+	r.init, st.incs, r.connCr = bookInit, bookIncs, bookConn // the grant is void; keep the books for the checks in poll
+	time.Sleep(300 * time.Microsecond)
+	r.poll()
+	sw1, cw1 := st.win()
+	what := fmt.Sprintf("%s v=%d on windows (%d,%d)", attack.kind, attack.v, sw0, cw0)
+	// the sender may have been running: windows can only have gone down by what it wrote meanwhile
+	if int64(sw1) > int64(sw0) || int64(cw1) > int64(cw0) || sw1 < 0 && sw0 >= 0 {
+		r.fail("flow:add-wraps-silently:"+side+":"+attack.kind, what+fmt.Sprintf(": windows afterwards (%d,%d)", sw1, cw1))
+	}
+	wantErr := !(side == "client" && kind == 2)
+	if wantErr {
+		ce, isCE := err.(mh2.ConnectionError)
+		if !isCE || mh2.ErrCode(ce) != mh2.ErrCodeFlowControl {
+			r.fail("flow:overflow-not-reported:"+side+":"+attack.kind, what+fmt.Sprintf(": expected connection error FLOW_CONTROL_ERROR, got %v", err))
+		}
+	} else if err != nil {
+		r.fail("flow:overflow-not-ignored:client:init", what+fmt.Sprintf(": got %v", err))
+	}
+	group([]string{attack.coq()})
+	term := fmt.Sprintf("(%s, %s)", coqSide(side), CoqList(groups))
+	ss.add("flowo", flowHeader, "flow_case", "flow_mismatches", 60, term, map[string]interface{}{"side": side, "script": r.script})
+	run.Count("flowo:"+term, true, "flow:overflow:"+side+":"+attack.kind)
+	r.abandon()
 }
